@@ -191,6 +191,8 @@ class Ctx:
         self.rule = ""
         self.level = "model_checking"
         self._bins = {}
+        self.only_key = None
+        self.replaying = False
         self.findings = load_findings()
 
     # ---------------------------------------------------------------- harness
@@ -368,6 +370,8 @@ class Ctx:
 
     def violation(self, key, what, replay):
         """Register a violation observed on the real code and judged by TLC."""
+        if self.only_key is not None and key != self.only_key:
+            return
         ent = self.findings_lookup(key)
         if ent is not None and ent.get("status") == "known":
             if key not in [k["key"] for k in self.known_hits]:
@@ -379,6 +383,8 @@ class Ctx:
                 v["count"] += 1
                 return
         rdir = os.path.join(VERIF, "replays", self.pid)
+        if self.replaying:
+            rdir = os.path.join(self.dir, "replayed")
         os.makedirs(rdir, exist_ok=True)
         safe = re.sub(r"[^A-Za-z0-9_.+-]+", "_", key)[:120]
         path = os.path.join(rdir, safe + ".json")
@@ -414,7 +420,10 @@ class Ctx:
             "violations": len(self.violations),
         }
         os.makedirs(os.path.join(VERIF, "evidence"), exist_ok=True)
-        with open(os.path.join(VERIF, "evidence", self.pid + ".json"), "w") as fh:
+        evpath = os.path.join(VERIF, "evidence", self.pid + ".json")
+        if self.replaying:
+            evpath = os.path.join(self.dir, "replay-evidence.json")
+        with open(evpath, "w") as fh:
             json.dump(ev, fh, indent=1, sort_keys=True, default=str)
         for k in self.known_hits:
             log("KNOWN-FINDING: property=%s %s -- %s" % (self.pid, k["key"], k["what"]))
